@@ -256,10 +256,18 @@ def create_end_event(
         # check if there are any exit event nodes
         if exit_event_nodes:
             # update end events in event sets to mirror exit event nodes
+            # (an exit event may also be joined by events outside of the
+            # loop, e.g. when the loop ends one branch of a fork, so only
+            # the loop events of each in event set are mirrored)
             for out_node in exit_event_nodes:
                 for event_set in out_node.in_event_sets:
-                    if event_set.to_frozenset().issubset(loop_event_types):
-                        end_event.update_in_event_sets(event_set.to_list())
+                    loop_events_in_set = [
+                        event_type
+                        for event_type in event_set.to_list()
+                        if event_type in loop_event_types
+                    ]
+                    if loop_events_in_set:
+                        end_event.update_in_event_sets(loop_events_in_set)
         else:
             # if there are no exit event nodes the end events are joined in
             # the same way as when the loop goes round again, so mirror the
